@@ -8,5 +8,5 @@ def run(rep, tier, seed):
     rc, res = deductive_part(rep, 'C01', tier, seed)
     n, d, samples = op_part(rep, 'C01', tier, seed, kinds=('exp', 'log', 'sqrt', 'sin', 'cos', 'tan', 'arc', 'sinh', 'cosh', 'tanh', 'recip', 'square', 'neg', 'abs', 'sign', 'erf', 'daw', 'logit', 'expit', 'gamma', 'psi', 'poly', 'hyper', 'pow', 'rpow', 'clip', 'min', 'max'))
     rep.add_bounded('dispatch level: algopy.f / special.f on UTPM vs mpmath', n, d, 'every overloaded elementary/special function called through the public name; each coefficient compared with (1/d!) d^d/dt^d f(x(t)) computed by Faa di Bruno from mpmath high-precision derivatives of f (independent of algopy.nthderiv and of the spec recurrences)', samples, 'D<=5, 4 cells per array, P<=3')
-    rep.assume(*[ASSUME[k] for k in ('A1', 'A3', 'A4', 'A5', 'A6', 'A8', 'A9', 'A10', 'A11', 'CPLX')])
+    rep.assume(*[ASSUME[k] for k in ('A1', 'A3', 'A4', 'A5', 'A6', 'A8', 'A8b', 'A9', 'A10', 'A11', 'CPLX')])
     return rc
